@@ -17,6 +17,7 @@
 #include "sched.hpp"
 
 #include <sstream>
+#include <deque>
 #include <iostream>
 
 #include "optimistic_lock.hpp"
@@ -147,33 +148,54 @@ void run_behaviour(int nthreads, int nsections, const std::vector<Step>& steps, 
        << l.out << ' ' << l.r1 << ' ' << l.r2 << ' ' << l.ver;
   };
   if (rng == nullptr) {
+    // Lockstep with the spec behaviour as long as the code's step structure
+    // agrees with it.  After a divergence the rest of the behaviour is still
+    // executed as a schedule (thread ids only; section kinds queue up), so that
+    // the interleaving TLC chose is applied to whatever the code does instead;
+    // those steps are judged by LockTrace.tla, not by the state graph.
+    std::vector<std::deque<char>> kinds(static_cast<std::size_t>(nthreads));
     for (const auto& st : steps) {
       const int t = st.t - 1;
-      if (sched.finished(t)) {
-        lockstep = false;
-        break;
-      }
-      const char* pn = pend_name(sched.pending(t));
-      if (std::strcmp(pn, expected_pend(st.code)) != 0) {
+      auto& kq = kinds[static_cast<std::size_t>(t)];
+      if (lockstep) {
+        const bool fin = sched.finished(t);
+        const char* pn = fin ? "FINISHED" : pend_name(sched.pending(t));
+        if (std::strcmp(pn, expected_pend(st.code)) == 0) {
+          if (st.code == 'B') sched.tcb(t).choice = st.kind;
+          sched.step(t);
+          ++done;
+          emit(t, pn);
+          continue;
+        }
         lockstep = false;  // divergence in step structure: reported, judged by the checker
-        emit(t, pn);
-        break;
       }
-      if (st.code == 'B') sched.tcb(t).choice = st.kind;
+      if (st.code == 'B') kq.push_back(st.kind);
+      if (sched.finished(t)) continue;
+      const char* pn = pend_name(sched.pending(t));
+      if (sched.pending(t).pk == vs::pkind::CHOICE) {
+        sched.tcb(t).choice = kq.empty() ? 'R' : kq.front();
+        if (!kq.empty()) kq.pop_front();
+      }
       sched.step(t);
-      ++done;
       emit(t, pn);
     }
   } else {
     // random schedule of random programs; codes are inferred from the pending point
+    // per run: how sticky the scheduler is (narrow windows need one thread to
+    // run several accesses in a row) and how often a section ends in obsolete
+    const std::uint64_t stick = rng->below(4);       // keep the thread with probability 0, 1/2, 3/4, 7/8
+    const std::uint64_t obs_in_10 = 1 + rng->below(3);  // 10%..30% of sections
+    int t = static_cast<int>(rng->below(static_cast<std::uint64_t>(nthreads)));
     for (int i = 0; i < random_steps && !sched.all_finished(); ++i) {
-      int t = static_cast<int>(rng->below(static_cast<std::uint64_t>(nthreads)));
+      if (stick == 0 || rng->below(1ULL << stick) == 0 || sched.finished(t) ||
+          pend_name(sched.pending(t))[0] == 'S')
+        t = static_cast<int>(rng->below(static_cast<std::uint64_t>(nthreads)));
       while (sched.finished(t)) t = (t + 1) % nthreads;
       const char* pn = pend_name(sched.pending(t));
       if (sched.pending(t).pk == vs::pkind::CHOICE) {
         const char kinds[3] = {'R', 'W', 'O'};
         const auto r = rng->below(10);
-        sched.tcb(t).choice = kinds[r < 5 ? 0 : r < 9 ? 1 : 2];
+        sched.tcb(t).choice = kinds[r < obs_in_10 ? 2 : r < 5 ? 1 : 0];
         os << "|c" << static_cast<char>(sched.tcb(t).choice);
       }
       sched.step(t);
@@ -186,8 +208,10 @@ void run_behaviour(int nthreads, int nsections, const std::vector<Step>& steps, 
   while (!sched.all_finished() && guard++ < 100000) {
     for (int t = 0; t < nthreads; ++t) {
       if (sched.finished(t)) continue;
+      const char* pn = pend_name(sched.pending(t));
       if (sched.pending(t).pk == vs::pkind::CHOICE) sched.tcb(t).choice = 'R';
       sched.step(t);
+      if (guard < 2000) emit(t, pn);
     }
   }
   const bool hung = !sched.all_finished();
@@ -198,6 +222,7 @@ void run_behaviour(int nthreads, int nsections, const std::vector<Step>& steps, 
     _exit(3);
   }
   sched.join_all();
+  os << "|F " << sh->word() << ' ' << sh->d1.load() << ' ' << sh->d2.load();
   outline = "R " + std::to_string(done) + (lockstep ? " 1" : " 0") + os.str();
 }
 
